@@ -140,7 +140,7 @@ Proof. repeat split; try reflexivity; repeat constructor. Qed.
    160..319 finds its first match 160; removing 80 (resident in an internal page, replaced by its predecessor)
    leaves next at 90 *)
 Example positional_example :
-  let t := run (fun x : Z => x) 0%Z 6 3 (map (fun k => OInsert [] (Z.of_nat (10 * k))) (seq 1 40)) in
+  let t := run (fun x : Z => x) 0%Z 6 3 6 (map (fun k => OInsert [] (Z.of_nat (10 * k))) (seq 1 40)) in
   Inv (fun x : Z => x) 6 3 t /\ height (root t) = 4 /\
   fst (lower_bound 0%Z t (fun x => Z.compare x 35%Z)) = IAt [0; 0; 0] /\
   iter_get 0%Z (root t) (IAt [0; 0; 0]) = 40%Z /\
@@ -150,6 +150,6 @@ Example positional_example :
   (let '(st, out, t', it, lg) := remove (fun x : Z => x) 0%Z 6 3 t 80%Z in
    st = SUCCESS /\ out = Some 80%Z /\ it = IAt [0; 0; 2; 0] /\ iter_get 0%Z (root t') it = 90%Z).
 Proof.
-  split; [apply (inv_reachable Z (fun x : Z => x) 0%Z 6 3 eq_refl (le_n 3))|].
+  split; [apply (inv_reachable Z (fun x : Z => x) 0%Z 6 3 eq_refl (le_n 3) 6); repeat constructor|].
   vm_compute. repeat split.
 Qed.
